@@ -165,6 +165,13 @@ def solve_case(ctx, rng):
     x12 = pc.quiet(sp.solve, csr_matrix(A), 2 * b - 3 * b2, silent=True)
     if np.abs(x12 - (2 * x - 3 * x2)).max() > 1e-9 * max(np.abs(x12).max(), 1e-300):
         bad = 'static solution does not depend linearly on the loads'
+    # ... linearly over many orders of magnitude (micro-Newton probe loads, MN unit systems): c(s f) = s c(f)
+    for s_ in (1e-12, 1e-9, 1e-5, 1e7):
+        xs = pc.quiet(sp.solve, csr_matrix(A), s_ * b, silent=True)
+        if np.abs(xs - s_ * x).max() > 1e-9 * max(np.abs(s_ * x).max(), 1e-300):
+            bad = ('static solution does not depend linearly on the loads: scaling the load vector by %g does not scale the solution by %g '
+                   '(max |c(s f)| = %.3e, s max|c(f)| = %.3e)' % (s_, s_, np.abs(xs).max(), s_ * np.abs(x).max()))
+            break
     return line, x, bad, dict(n=n, active=act)
 
 
@@ -256,14 +263,15 @@ def stiffened_bay_case(ctx, rng):
     case = C13.gen_bay(rng)
     # make loaded / unloaded stiffeners alternate at random
     for s_ in case['stiffs']:
+        # 0..3 forces on every loadable part (several forces on ONE flange / base / skin: accumulation, not assignment)
         if s_['type'] in ('b2', 't') and s_['flange']:
-            s_['forces_flange'] = ([[rng.uniform(0, case['a']), rng.uniform(0, s_['bf']), rng.uniform(-1, 1), 0., rng.uniform(-1, 1)]]
-                                   if rng.random() < 0.5 else [])
+            s_['forces_flange'] = [[rng.uniform(0, case['a']), rng.uniform(0, s_['bf']), rng.uniform(-1, 1), 0., rng.uniform(-1, 1)]
+                                   for _ in range(rng.choice([0, 1, 2, 3]))]
         if s_['type'] == 't':
-            s_['forces_base'] = ([[rng.uniform(0, case['a']), rng.uniform(0, s_['bb']), 0., rng.uniform(-1, 1), rng.uniform(-1, 1)]]
-                                 if rng.random() < 0.5 else [])
-    case['forces_skin'] = [[rng.uniform(0, case['a']), rng.uniform(0, case['b']), rng.uniform(-1, 1), rng.uniform(-1, 1), 1.]] \
-        if rng.random() < 0.5 else []
+            s_['forces_base'] = [[rng.uniform(0, case['a']), rng.uniform(0, s_['bb']), 0., rng.uniform(-1, 1), rng.uniform(-1, 1)]
+                                 for _ in range(rng.choice([0, 1, 2, 3]))]
+    case['forces_skin'] = [[rng.uniform(0, case['a']), rng.uniform(0, case['b']), rng.uniform(-1, 1), rng.uniform(-1, 1), 1.]
+                           for _ in range(rng.choice([0, 1, 2, 3]))]
     desc = dict(kind='stiffened bay', stiffs=[(s_['type'], bool(s_['forces_flange']), bool(s_['forces_base'])) for s_ in case['stiffs']],
                 skin=bool(case['forces_skin']))
     try:
